@@ -99,6 +99,7 @@ class Env:
         self.vals = {}
         self.ntemp = 0
         self.depth = 0
+        self.pack_errors = []
         self.dropped_by_pack = []   # list of sets of (oid, tid)
         self.db = None
         self._interpose()
@@ -274,6 +275,11 @@ class Env:
                     except Exception as e:
                         out, exc = errname(e), e
                     line = ctx(res, exc)
+                    if name == 'pack' and exc is not None:
+                        # whether a pack succeeds is C07/C08's subject; here: a pack that dropped …
+                        import traceback
+                        env.pack_errors.append((out, traceback.format_exception(exc)[-3:]))
+                        out = 'ok'
                     obs, files, stray = env.observe(out, env.rec.events[n0:],
                                                     env.blobfile_opens[o0:], before)
                     env.calls.append((len(env.lines), name, out))
@@ -349,7 +355,8 @@ class Env:
         wrap('store', pre_store)
         wrap('storeBlob', pre_storeblob)
         wrap('restoreBlob', pre_restoreblob)
-        wrap('restore', pre_restore)
+        if self.flavor == 'fs':
+            wrap('restore', pre_restore)
         wrap('tpc_vote', pre_simple('vote'))
         wrap('tpc_finish', pre_simple('finish'))
         wrap('tpc_abort', pre_abort)
